@@ -9,25 +9,25 @@ open Goat.LTS
 
 def AllExited (s : St) : Prop := ∀ pc ∈ s.cons, pc = PC.exited
 
-theorem allExited_of_wait {P : Params} {acts : List PAct} {n : Nat} {s : St} (hI : Inv P acts n s)
+theorem allExited_of_wait {P : Params} {prog : List PAct} {n : Nat} {s : St} (hI : Inv P prog n s)
     (hw : waitEnabled s) : AllExited s := by
   intro pc hpc
-  have h0 : msum liveW s.cons = 0 := by rw [← hI.pool]; exact hw
-  have := msum_eq_zero liveW s.cons h0 pc hpc
+  have h0 : lsum liveW s.cons = 0 := by rw [← hI.pool]; exact hw
+  have := lsum_eq_zero liveW s.cons h0 pc hpc
   unfold liveW at this
   split at this
   · assumption
   · cases this
 
-theorem msum_allExited (f : PC → Nat) (hf : f .exited = 0) (l : List PC) (h : ∀ pc ∈ l, pc = PC.exited) :
-    msum f l = 0 := by
-  induction l with
-  | nil => rfl
-  | cons a r ih =>
-    have ha := h a (by simp)
-    subst ha
-    simp [msum, hf]
-    exact ih (fun pc hpc => h pc (by simp [hpc]))
+theorem wait_of_allExited {P : Params} {prog : List PAct} {n : Nat} {s : St} (hI : Inv P prog n s)
+    (h : AllExited s) : waitEnabled s := by
+  unfold waitEnabled
+  rw [hI.pool]
+  exact lsum_all_zero liveW s.cons (fun pc hpc => by rw [h pc hpc]; simp [liveW])
+
+theorem lsum_allExited (f : PC → Nat) (hf : f .exited = 0) (l : List PC) (h : ∀ pc ∈ l, pc = PC.exited) :
+    lsum f l = 0 :=
+  lsum_all_zero f l (fun pc hpc => by rw [h pc hpc]; exact hf)
 
 theorem inflight_allExited (l : List PC) (h : ∀ pc ∈ l, pc = PC.exited) : inflight l = [] := by
   induction l with
@@ -47,83 +47,148 @@ theorem reporting_allExited (l : List PC) (h : ∀ pc ∈ l, pc = PC.exited) : r
     simp [reporting]
     exact ih (fun pc hpc => h pc (by simp [hpc]))
 
-/-- when some consumer has left the loop without a kill, everything has been produced and both
+/-- every producer has signed off: nothing is left to send, to list or to report -/
+theorem gone_of_ppool {P : Params} {prog : List PAct} {n : Nat} {s : St} (hI : Inv P prog n s)
+    (h0 : s.ppool = 0) : ∀ pr ∈ s.prods, pr = Prod.gone := by
+  intro pr hpr
+  have := lsum_eq_zero liveP s.prods (by rw [← hI.ppool]; exact h0) pr hpr
+  cases pr <;> simp [liveP] at this ⊢
+
+theorem lsum_gone (f : Prod → Nat) (hf : f .gone = 0) (l : List Prod) (h : ∀ pr ∈ l, pr = Prod.gone) :
+    lsum f l = 0 :=
+  lsum_all_zero f l (fun pr hpr => by rw [h pr hpr]; exact hf)
+
+theorem errorsOf_nil {s : St} : errorsOf s = [] ↔ s.errors = [] ∧ s.killed = false := by
+  unfold errorsOf St.killed
+  cases s.ctx <;> simp [Ctx.err, Ctx.dead]
+
+theorem killed_iff_ctxerr {s : St} : s.killed = true ↔ s.ctx.err ≠ [] := by
+  unfold St.killed
+  cases s.ctx <;> simp [Ctx.err, Ctx.dead]
+
+/-- when some consumer has left the loop without a kill, every producer has signed off and both
 queues are empty -/
-theorem drained_of_exit {P : Params} {acts : List PAct} {n : Nat} {s : St} (hI : Inv P acts n s)
+theorem drained_of_exit {P : Params} {prog : List PAct} {n : Nat} {s : St} (hI : Inv P prog n s)
     (hk : s.killed = false) {pc : PC} (hpc : pc ∈ s.cons) (he : pc = .exiting ∨ pc = .exited) :
-    s.pending = [] ∧ s.qd = [] ∧ s.qf = [] ∧ s.closed = true := by
+    s.ppool = 0 ∧ s.qd = [] ∧ s.qf = [] ∧ s.closed = true := by
   have hg := hI.good pc hpc
   have : ExitOK s := by rcases he with rfl | rfl <;> exact hg
   rcases this with h | ⟨h1, h2, h3⟩
   · rw [hk] at h; cases h
-  · exact ⟨closed_pending hI.closer h3, h1, h2, h3⟩
+  · exact ⟨closed_ppool hI.closer h3, h1, h2, h3⟩
 
-/-- `Wait` returned and the error list is empty: the finished callbacks are exactly the sends -/
-theorem done_perm_of_wait {P : Params} {acts : List PAct} {n : Nat} {s : St} (hI : Inv P acts n s)
-    (hn : 0 < n) (hw : waitEnabled s) (he : s.errors = []) : s.done.Perm (sends acts) := by
+theorem exists_cons {P : Params} {prog : List PAct} {n : Nat} {s : St} (hI : Inv P prog n s) (hn : 0 < n) :
+    ∃ pc, pc ∈ s.cons := by
+  have hl := hI.len
+  cases hc : s.cons with
+  | nil => rw [hc] at hl; simp at hl; omega
+  | cons a r => exact ⟨a, by simp⟩
+
+/-- `Wait` returned and `Errors()` is empty: the finished callbacks are exactly the sends of the program -/
+theorem done_perm_of_wait {P : Params} {prog : List PAct} {n : Nat} {s : St} (hI : Inv P prog n s)
+    (hn : 0 < n) (hw : waitEnabled s) (he : errorsOf s = []) : s.done.Perm (sendsL prog) := by
   have hall := allExited_of_wait hI hw
-  have hk : s.killed = false := by
-    cases hs : s.killed
-    · rfl
-    · have := hI.killed.mp hs; exact absurd he this
-  have hne : ∃ pc, pc ∈ s.cons := by
-    have hl := hI.len
-    cases hc : s.cons with
-    | nil => rw [hc] at hl; simp at hl; omega
-    | cons a r => exact ⟨a, by simp⟩
-  obtain ⟨pc, hpc⟩ := hne
+  have hk : s.killed = false := (errorsOf_nil.mp he).2
+  obtain ⟨pc, hpc⟩ := exists_cons hI hn
   obtain ⟨h1, h2, h3, _⟩ := drained_of_exit hI hk hpc (Or.inr (hall pc hpc))
   rw [List.perm_iff_count]
   intro x
   have := hI.items x
-  rw [h1, hI.dropped hk, msum_allExited (cbW x) (by simp [cbW]) s.cons hall] at this
-  simp [qItems, h2, h3, sends] at this
+  rw [lsum_gone (unsentC x) rfl s.prods (gone_of_ppool hI h1), hI.dropped hk,
+    lsum_allExited (cbW x) (by simp [cbW]) s.cons hall] at this
+  simp [qItems, h2, h3] at this
   exact this
 
-/-- nothing is ever repeated (with or without errors) -/
-theorem done_count_le {P : Params} {acts : List PAct} {n : Nat} {s : St} (hI : Inv P acts n s) (x : Item) :
-    s.done.count x + (inflight s.cons).count x ≤ (sends acts).count x := by
+/-- nothing is ever repeated (with or without errors, kills, timeouts) -/
+theorem done_count_le {P : Params} {prog : List PAct} {n : Nat} {s : St} (hI : Inv P prog n s) (x : Item) :
+    s.done.count x + (inflight s.cons).count x ≤ (sendsL prog).count x := by
   have := hI.items x
   rw [count_inflight]
   omega
 
-theorem inflight_length_le {P : Params} {acts : List PAct} {n : Nat} {s : St} (hI : Inv P acts n s) :
+theorem inflight_length_le {P : Params} {prog : List PAct} {n : Nat} {s : St} (hI : Inv P prog n s) :
     (inflight s.cons).length ≤ n := by
   rw [length_inflight, ← hI.len]
-  apply msum_le_length
+  apply lsum_le_length
   intro pc; cases pc <;> simp [anyCbW]
 
-/-! ### after `Wait` nothing happens any more -/
+theorem inflight_exited_aux (l : List PC) :
+    (inflight l).length + l.countP (fun pc => pc == .exiting || pc == .exited) ≤ l.length := by
+  induction l with
+  | nil => simp [inflight]
+  | cons a r ih => cases a <;> simp [inflight, List.countP_cons] <;> omega
+
+theorem inflight_exited_le {P : Params} {prog : List PAct} {n : Nat} {s : St} (hI : Inv P prog n s) :
+    (inflight s.cons).length + s.cons.countP (fun pc => pc == .exiting || pc == .exited) ≤ n := by
+  rw [← hI.len]; exact inflight_exited_aux s.cons
+
+/-- when the program sends every item once, the finished and the running callbacks are pairwise distinct -/
+theorem nodup_done_inflight {P : Params} {prog : List PAct} {n : Nat} {s : St} (hI : Inv P prog n s)
+    (hnd : (sendsL prog).Nodup) : (s.done ++ inflight s.cons).Nodup := by
+  rw [List.nodup_iff_count]
+  intro x
+  rw [List.count_append]
+  have := done_count_le hI x
+  have := List.nodup_iff_count.mp hnd x
+  omega
+
+/-- a listing that failed is in the error list, or its producer's very next action puts it there -/
+theorem listing_recorded_or_reporting {P : Params} {prog : List PAct} {n : Nat} {s : St} (hI : Inv P prog n s)
+    (p : Path) (hp : p ∈ s.lfailed) : Err.listing p ∈ s.errors ∨ p ∈ reportingP s.prods := by
+  have h := hI.lrep p
+  have hpos : 0 < s.lfailed.count p := List.count_pos_iff.mpr hp
+  rw [← count_reportingP] at h
+  by_cases he : 0 < s.errors.count (.listing p)
+  · exact Or.inl (List.count_pos_iff.mp he)
+  · exact Or.inr (List.count_pos_iff.mp (by omega))
+
+/-- a producer that is about to report has not signed off -/
+theorem ppool_of_reporting {P : Params} {prog : List PAct} {n : Nat} {s : St} (hI : Inv P prog n s)
+    (p : Path) (hp : p ∈ reportingP s.prods) : s.ppool ≠ 0 := by
+  have hpos : 0 < (reportingP s.prods).count p := List.count_pos_iff.mpr hp
+  rw [count_reportingP] at hpos
+  intro h0
+  have := lsum_gone (lrepW p) rfl s.prods (gone_of_ppool hI h0)
+  omega
+
+/-! ### after `Wait` nothing happens to the callbacks any more -/
+
+theorem prodStep_cons_done {P : Params} {s t : St} {j : Nat} (hs : prodStep P s j = some t) :
+    t.cons = s.cons ∧ t.done = s.done := by
+  unfold prodStep at hs
+  split at hs
+  · cases hs
+  · cases hs
+  · cases hs; exact ⟨rfl, rfl⟩
+  · cases hs; exact ⟨rfl, rfl⟩
+  · rename_i a rest _
+    cases a with
+    | send d p => cases d <;> simp only [prodAct] at hs <;> split at hs <;> cases hs <;> exact ⟨rfl, rfl⟩
+    | list p sl ok k => cases ok <;> simp only [prodAct] at hs <;> cases hs <;> exact ⟨rfl, rfl⟩
+    | filtD _ _ => simp only [prodAct] at hs; cases hs; exact ⟨rfl, rfl⟩
+    | filtF _ _ => simp only [prodAct] at hs; cases hs; exact ⟨rfl, rfl⟩
+    | add _ => simp only [prodAct] at hs; cases hs; exact ⟨rfl, rfl⟩
+    | spawn _ _ => simp only [prodAct] at hs; cases hs; exact ⟨rfl, rfl⟩
+    | chk _ => simp only [prodAct] at hs; split at hs <;> cases hs <;> exact ⟨rfl, rfl⟩
+
+theorem closerStep_cons_done {s t : St} (hs : closerStep s = some t) :
+    t.cons = s.cons ∧ t.done = s.done ∧ t.ctx = s.ctx ∧ t.qd = s.qd ∧ t.qf = s.qf ∧ t.prods = s.prods := by
+  unfold closerStep at hs
+  split at hs
+  · split at hs
+    · cases hs; simp
+    · cases hs
+  all_goals first | (cases hs; simp) | cases hs
 
 theorem allExited_step {P : Params} {s t : St} (h : AllExited s) (l : Label) (hs : step P s l = some t) :
     AllExited t ∧ t.done = s.done := by
   cases l with
-  | prod =>
-    simp only [step, prodStep] at hs
-    cases hp : s.pending with
-    | nil => simp [hp] at hs
-    | cons a rest =>
-      simp only [hp] at hs
-      cases a with
-      | send d p => cases d <;> simp only [prodAct] at hs <;> split at hs <;> cases hs <;> exact ⟨h, rfl⟩
-      | list p sl ok => cases ok <;> simp only [prodAct] at hs <;> cases hs <;> exact ⟨h, rfl⟩
-      | filtD _ _ => simp only [prodAct] at hs; cases hs; exact ⟨h, rfl⟩
-      | filtF _ _ => simp only [prodAct] at hs; cases hs; exact ⟨h, rfl⟩
-      | add _ _ => simp only [prodAct] at hs; cases hs; exact ⟨h, rfl⟩
-  | abandon =>
-    simp only [step, abandonStep] at hs
-    split at hs
-    · split at hs
-      · cases hs
-      · cases hs; exact ⟨h, rfl⟩
-    · cases hs
+  | prod j =>
+    have := prodStep_cons_done (P := P) hs
+    exact ⟨by unfold AllExited; rw [this.1]; exact h, this.2⟩
   | closer =>
-    simp only [step, closerStep] at hs
-    split at hs
-    · split at hs
-      · cases hs; exact ⟨h, rfl⟩
-      · cases hs
-    all_goals first | (cases hs; exact ⟨h, rfl⟩) | cases hs
+    have := closerStep_cons_done hs
+    exact ⟨by unfold AllExited; rw [this.1]; exact h, this.2.1⟩
   | cons i =>
     simp only [step, consStep] at hs
     split at hs
@@ -131,16 +196,19 @@ theorem allExited_step {P : Params} {s t : St} (h : AllExited s) (l : Label) (hs
     · rename_i pc hpc
       have := h pc (List.mem_of_getElem? hpc)
       simp [this] at hs
+  | kill => simp only [step] at hs; cases hs; exact ⟨h, rfl⟩
+  | errEvent => simp only [step] at hs; cases hs; exact ⟨h, rfl⟩
+  | timeout => simp only [step] at hs; cases hs; exact ⟨h, rfl⟩
 
-theorem allExited_runFrom {P : Params} {acts : List PAct} {n : Nat} {s : St} (h : AllExited s)
+theorem allExited_runFrom {P : Params} {prog : List PAct} {n : Nat} {s : St} (h : AllExited s)
     (sched : List Label) :
-    AllExited ((sys P acts n).runFrom s sched) ∧ ((sys P acts n).runFrom s sched).done = s.done := by
+    AllExited ((sys P prog n).runFrom s sched) ∧ ((sys P prog n).runFrom s sched).done = s.done := by
   induction sched generalizing s with
   | nil => exact ⟨h, rfl⟩
   | cons l rest ih =>
     rw [runFrom_cons]
     unfold Sys.next
-    cases hs : (sys P acts n).step s l with
+    cases hs : (sys P prog n).step s l with
     | none => exact ih h
     | some t =>
       have := allExited_step h l hs
@@ -157,43 +225,38 @@ theorem cons_enabled (P : Params) (s : St) (i : Nat) (pc : PC) (h : s.cons[i]? =
 theorem exists_index_of_mem {α : Type} {l : List α} {a : α} (h : a ∈ l) : ∃ i : Nat, l[i]? = some a := by
   exact List.mem_iff_getElem?.mp h
 
-/-- without a kill, something is enabled until every goroutine has finished -/
-theorem progress {P : Params} {acts : List PAct} {n : Nat} {s : St} (hI : Inv P acts n s) (hn : 0 < n)
+theorem exists_live_cons {s : St} (hall : ¬ AllExited s) : ∃ pc, pc ∈ s.cons ∧ pc ≠ PC.exited := by
+  apply Classical.byContradiction
+  intro hcon
+  apply hall
+  intro pc hpc
+  apply Classical.byContradiction
+  intro hne
+  exact hcon ⟨pc, hpc, hne⟩
+
+/-- without a kill, some goroutine of the loop can move until every goroutine has finished -/
+theorem progress {P : Params} {prog : List PAct} {n : Nat} {s : St} (hI : Inv P prog n s) (hn : 0 < n)
     (hk : s.killed = false) (hnf : ¬ (AllExited s ∧ s.closer = .fin)) :
-    ∃ l t, step P s l = some t := by
+    ∃ l t, l.isProg = true ∧ step P s l = some t := by
   by_cases hall : AllExited s
   · -- all consumers gone: the close was announced, the closer still has channels to close
-    have hne : ∃ pc, pc ∈ s.cons := by
-      have hl := hI.len
-      cases hc : s.cons with
-      | nil => rw [hc] at hl; simp at hl; omega
-      | cons a r => exact ⟨a, by simp⟩
-    obtain ⟨pc, hpc⟩ := hne
+    obtain ⟨pc, hpc⟩ := exists_cons hI hn
     obtain ⟨h1, _, _, h4⟩ := drained_of_exit hI hk hpc (Or.inr (hall pc hpc))
     have hcl := hI.closer
     unfold CloserOK at hcl
     refine ⟨.closer, ?_⟩
     cases hc : s.closer <;> simp [hc, h4] at hcl
-    · simp [step, closerStep, hc]
-    · simp [step, closerStep, hc]
+    · simp [step, closerStep, hc, Label.isProg]
+    · simp [step, closerStep, hc, Label.isProg]
     · exact absurd ⟨hall, hc⟩ hnf
-  · have : ∃ pc, pc ∈ s.cons ∧ pc ≠ .exited := by
-      apply Classical.byContradiction
-      intro hcon
-      apply hall
-      intro pc hpc
-      apply Classical.byContradiction
-      intro hne
-      exact hcon ⟨pc, hpc, hne⟩
-    obtain ⟨pc, hpc, hne⟩ := this
+  · obtain ⟨pc, hpc, hne⟩ := exists_live_cons hall
     obtain ⟨i, hi⟩ := exists_index_of_mem hpc
     obtain ⟨t, ht⟩ := cons_enabled P s i pc hi hne
-    exact ⟨.cons i, t, ht⟩
+    exact ⟨.cons i, t, rfl, ht⟩
 
-/-- without a kill, producers that still have something to send are never left without a
-consumer inside its loop -/
-theorem consumer_remains {P : Params} {acts : List PAct} {n : Nat} {s : St} (hI : Inv P acts n s)
-    (hk : s.killed = false) (hp : s.pending ≠ []) :
+/-- without a kill, producers that have not signed off are never left without a consumer inside its loop -/
+theorem consumer_remains {P : Params} {prog : List PAct} {n : Nat} {s : St} (hI : Inv P prog n s)
+    (hk : s.killed = false) (hp : s.ppool ≠ 0) :
     ∀ pc ∈ s.cons, pc ≠ .exiting ∧ pc ≠ .exited := by
   intro pc hpc
   refine ⟨fun e => ?_, fun e => ?_⟩
